@@ -2,11 +2,12 @@ import AiocoapModel.Blockwise.BlockOptC
 /-!
 Model of the block-wise client `aiocoap.protocol.BlockwiseRequest` (protocol.py):
 
-* the Block1 loop of `_run` (protocol.py:884-1017 of the fixed tree): fragmentation threshold, `_extract_block`,
-  the cursor update after an acknowledgement incl. the server's size reduction, the checks;
-* `_complete_by_requesting_block2` (protocol.py:1099-1163) with
+* the Block1 loop of `_run` (protocol.py:896-1039 of the fixed tree): fragmentation threshold, `_extract_block`,
+  the cursor update after an acknowledgement incl. the server's size reduction, the checks
+  (incl. "2.31 Continue without Block1 option", protocol.py:959-968);
+* `_complete_by_requesting_block2` (protocol.py:1130-1205) with
   `Message._generate_next_block2_request` and `Message._append_response_block`
-  (message.py:473-528).
+  (message.py:476-531), incl. the refusal of a block larger than requested (protocol.py:1189-1193).
 
 The client is a machine `Phase` that has exactly one request outstanding until it is `done`;
 `step` consumes the response to that request.  `runClient` folds `step` over a list of
@@ -14,9 +15,12 @@ responses (what the driver runs: the harness records the responses its reference
 to the real `BlockwiseRequest`), `RefServer.interact` closes the loop with the reference
 server (what the theorems about conforming servers talk about).
 
-Out of the model: BERT (szx 7), the observe branch, the deprecated way of passing a size
-hint in `app_request.opt.block1`, task / weak reference lifetime, and loss or duplication of
-individual exchanges (the message layer's job; here every request gets at most one response).
+Out of the model: BERT (szx 7), the Observe option (protocol.py:1016-1031 cancels the lower
+observation when an intermediate acknowledgement carries Observe and goes on: no influence on the
+requests or the result, which is what the harness checks on requests with Observe:0), the
+deprecated way of passing a size hint in `app_request.opt.block1`, task / weak reference lifetime,
+and loss or duplication of individual exchanges (the message layer's job; here every request gets
+at most one response).
 -/
 namespace Aiocoap.BwClient
 
@@ -162,12 +166,25 @@ single final block 0 (protocol.py:963-970, after the fix) -/
 def sentBlock1 (st : B1State) (cur : Req) : BlockOpt :=
   cur.block1.getD { num := 0, more := false, szx := st.szx }
 
+/-- protocol.py:1189 `block2.size_exponent > current_block2.opt.block2.size_exponent`: the block
+is larger than the one the outstanding request asked for (every request of the Block2 loop
+carries a Block2 option) -/
+def szxGrows (cur : Req) (b2 : BlockOpt) : Bool :=
+  match cur.block2 with
+  | some q => decide (q.szx < b2.szx)
+  | none => false
+
 /-- One response arrives for the outstanding request. -/
 def step (cfg : Cfg) : Phase → Resp → Phase
   | .done o, _ => .done o
   | .b1 st cur, r =>
     match r.block1 with
-    | none => completeBlock2 cfg cur r                     -- protocol.py:947-953 `break`
+    | none =>
+      -- protocol.py:959-968: a 2.31 without the option is a protocol error (the fix); every
+      -- other code ends the upload here (`break`), whether or not `cur` was the final block:
+      -- "Block1 option completely ignored by server, assuming it knows what it is doing"
+      if r.code == codeContinue then .done (.error .unexpectedBlock1)
+      else completeBlock2 cfg cur r
     | some a =>
       let sent := sentBlock1 st cur
       if a.num ≠ sent.num then .done (.error .unexpectedBlock1)   -- "Block number mismatch"
@@ -180,12 +197,14 @@ def step (cfg : Cfg) : Phase → Resp → Phase
         else if a.more then enterB1 cfg { szx := sc.1, cursor := sc.2 }
         else if !(isSuccessful r.code) then completeBlock2 cfg cur r
         else enterB1 cfg { szx := sc.1, cursor := sc.2 }   -- intermediate result discarded
-  | .b2 template asm _, r =>
+  | .b2 template asm cur, r =>
     match r.block2 with
     | none => .done (.ok (bodyOf r))                       -- "accepting single response"
     | some b2 =>
-      -- Message._append_response_block (message.py:473-497; the code comparison is the fix)
-      if r.code ≠ asm.code then .done (.error .unexpectedBlock2)   -- "Response code changed"
+      -- protocol.py:1189-1193 (the fix): RFC 7959 2.4, never larger blocks than requested
+      if szxGrows cur b2 then .done (.error .unexpectedBlock2)
+      -- Message._append_response_block (message.py:476-500; the code comparison is a fix)
+      else if r.code ≠ asm.code then .done (.error .unexpectedBlock2)   -- "Response code changed"
       else if !b2.validFor r.payload.length then .done (.error .unexpectedBlock2)
       else if b2.start ≠ asm.payload.length then .done (.error .notImplemented)
       else if r.etag ≠ asm.etag then .done (.error .resourceChanged)
